@@ -161,11 +161,18 @@ def _loads_xml(string):
     return sets
 
 
+def _in_scale(date, scale):
+    """The date in the time system declared for the segment"""
+    return date if date.scale.name == scale.name else date.change_scale(scale.name)
+
+
 def collect_metadata(path, measure_set):
     meta = {
         "TIME_SYSTEM": measure_set.start.scale.name,
         "START_TIME": measure_set.start.strftime(DATE_FMT_DEFAULT),
-        "STOP_TIME": measure_set.stop.strftime(DATE_FMT_DEFAULT),
+        "STOP_TIME": _in_scale(measure_set.stop, measure_set.start.scale).strftime(
+            DATE_FMT_DEFAULT
+        ),
     }
 
     i = 0
@@ -243,7 +250,7 @@ def _dumps_kvn(data, **kwargs):
             txt.append(
                 "{name:20} = {date:{DATE_FMT_DEFAULT}} {value:{value_fmt}}".format(
                     name=name,
-                    date=m.date,
+                    date=_in_scale(m.date, measure_set.start.scale),
                     DATE_FMT_DEFAULT=DATE_FMT_DEFAULT,
                     value=value,
                     value_fmt=value_fmt,
@@ -281,7 +288,9 @@ def _dumps_xml(data, **kwargs):
             obs = ET.SubElement(data_tag, "observation")
 
             epoch = ET.SubElement(obs, "EPOCH")
-            epoch.text = m.date.strftime(DATE_FMT_DEFAULT)
+            epoch.text = _in_scale(m.date, measure_set.start.scale).strftime(
+                DATE_FMT_DEFAULT
+            )
             name, value, value_fmt = encode_measurement(m)
 
             field = ET.SubElement(obs, name)
